@@ -32,6 +32,7 @@ HDR = re.compile(r"(?:,-|╭─)\[ ?([^\]\s]+):(\d+):(\d+) ?\]")
 CODE = re.compile(r"\[([EL]\d+)\]")
 LOC = re.compile(r'Location \{ source_filename: "((?:[^"\\]|\\.)*)", span: (\d+)\.\.(\d+), line_number: (\d+), line_offset: (\d+) \}')
 NAMED_LOC = re.compile(r'(?<![A-Za-z_])name: "((?:[^"\\]|\\.)*)", location: Location \{ source_filename: "((?:[^"\\]|\\.)*)", span: (\d+)\.\.(\d+),')
+EXPECTATION = re.compile(r'expectation: "((?:[^"\\]|\\.)*)"')
 ANSI = re.compile(rb"\x1b\[[0-9;]*m")
 
 
@@ -169,6 +170,11 @@ ZOO_CTX = [
     "var v = cast %s as [3]i32;",
     "var v: u8 = %s; var w: i64 = v;",
     "zf(%s) = %s;",
+    "var v: &u32 = %s as &u32;",
+    "var v = %s as &u8;",
+    "var v: &[]u8 = cast %s;",
+    "var v = %s as u64 as i8 as bool;",
+    "var v: [2]i32 = %s;",
 ]
 
 
@@ -202,7 +208,7 @@ def mutated_set(seed, i, corpus):
     data = base["files"][name]
     ops = []
     for _ in range(rng.randint(1, 3)):
-        op = rng.choice(["byte", "delete", "dup_line", "drop_line", "multibyte", "crlf", "truncate", "token_swap", "insert_token"])
+        op = rng.choice(["byte", "delete", "dup_line", "drop_line", "multibyte", "crlf", "truncate", "truncate_clean", "token_swap", "insert_token"])
         ops.append(op)
         if not data:
             break
@@ -233,6 +239,10 @@ def mutated_set(seed, i, corpus):
         elif op == "truncate":
             j = rng.randrange(len(data))
             data = data[:j]
+        elif op == "truncate_clean":
+            # end of file right after a token, no trailing newline
+            j = rng.randrange(len(data))
+            data = data[:j].rstrip()
         elif op == "token_swap":
             toks = re.split(rb"(\s+)", data)
             if len(toks) > 4:
@@ -330,6 +340,7 @@ def evaluate_set(s, wd, cfg, rng, stats):
             viol.append(("nondeterministic_verbose_output", "--verbose output differs between entropy %d and %d at byte %d: %r vs %r" %
                          (vobs[0][0], vobs[1][0], k, a[max(0, k - 60):k + 60], b[max(0, k - 60):k + 60]), {"entropies": [vobs[0][0], vobs[1][0]]}))
     base_r = first[3]
+    stats["base_stderr"] = base_r.err.decode(errors="replace") if base_r.rc == 1 else None
     base_heads = headers_of(base_r)
     stats["diag_lists"].add(tuple(base_heads))
     if base_heads:
@@ -444,6 +455,16 @@ def check_locations_structured(s, wd, stats):
                 want = 1 + t[:a].count("\n")
                 if ln != want and not (a >= n):
                     viol.append(("span_not_on_reported_line", "%s span %d..%d starts on line %d but line_number=%d: %s" % (fn, a, b, want, ln, e[:200])))
+            # what the diagnostic has to say must be in the rendered report: a
+            # label that ariadne drops (span outside the source) loses it silently
+            rendered = stats.get("base_stderr")
+            if rendered is not None and rec.get("verdict") in ("errors", "surface_errors") and \
+                    e.startswith(("UnexpectedEndOfFile {", "UnexpectedToken {")):
+                for text in EXPECTATION.findall(e):
+                    text = text.encode().decode("unicode_escape") if "\\" in text else text
+                    stats["messages_checked"] = stats.get("messages_checked", 0) + 1
+                    if text and text not in rendered:
+                        viol.append(("message_missing_from_report", "the diagnostic carries %r but the rendered report does not show it: %s" % (text, e[:160])))
             # "covers the offending text", where the diagnostic itself names the text
             for name, fn, a, b in NAMED_LOC.findall(e):
                 if fn in texts and texts[fn] is not None:
@@ -469,6 +490,7 @@ def _job(args):
     viol += check_locations_structured(s, wd, stats)
     shutil.rmtree(wd, ignore_errors=True)
     stats["diag_lists"] = sorted(stats["diag_lists"])
+    stats.pop("base_stderr", None)
     return {"idx": idx, "id": s["id"], "kind": s["kind"], "violations": viol, "stats": stats,
             "max_imports": s.get("max_imports", len(s["order"]) - 1 if s["kind"] == "corpus_import" else 0)}
 
